@@ -55,6 +55,10 @@ pub enum ConvOp {
     MulByCofactor,
     MulByCofactorInv,
     AffineXY,
+    /// scalar multiplication entry points of the affine type with boundary scalars: [1]A, [r+1]A, A * 1
+    AffMulBigintOne,
+    AffMulBigintOrderPlusOne,
+    AffMulFrOne,
 }
 pub const CONVS: &[ConvOp] = &[
     ConvOp::IntoAffineIntoGroup,
@@ -67,6 +71,9 @@ pub const CONVS: &[ConvOp] = &[
     ConvOp::MulByCofactor,
     ConvOp::MulByCofactorInv,
     ConvOp::AffineXY,
+    ConvOp::AffMulBigintOne,
+    ConvOp::AffMulBigintOrderPlusOne,
+    ConvOp::AffMulFrOne,
 ];
 
 #[derive(Clone, Copy, Debug, Serialize, Deserialize, PartialEq, Eq, Hash)]
@@ -286,6 +293,9 @@ fn conv_case(r: &Recipe, op: ConvOp, ctx: &mut Ctx) -> Result<(), Failure> {
             valid_affine(&name, &a, ctx)?;
             a.into_group()
         }
+        ConvOp::AffMulBigintOne => a.mul_bigint([1u64]),
+        ConvOp::AffMulBigintOrderPlusOne => a.mul_bigint((&R.m + 1u32).to_u64_digits()),
+        ConvOp::AffMulFrOne => a * arkf::fr(&N::from(1u32)),
     };
     valid_elem::<Ark>(&name, &out, ctx)?;
     // conversions and cofactor operations (cofactor 1) must preserve the element
